@@ -130,7 +130,8 @@ theorem move_cases {s s' : State} {num lvl : Nat} (hs : stepTrivialMove s num lv
       (∀ g ∈ lv s.levels (lvl + 1), userRangeOverlaps g f.smallest.1 f.largest.1 = false) ∧
       (lvl = 0 → ∀ g ∈ unpick (lv s.levels lvl) [num],
         userRangeOverlaps g f.smallest.1 f.largest.1 = false) ∧
-      (lvl ≠ 0 → ∀ g ∈ unpick (lv s.levels lvl) [num], g.smallest.1 ≠ f.largest.1) ∧
+      (lvl ≠ 0 → ∀ g ∈ unpick (lv s.levels lvl) [num], kLt f.largest g.smallest = true →
+        g.smallest.1 ≠ f.largest.1) ∧
       s' = { s with levels := addToLevel (removeNums s.levels lvl [num]) (lvl + 1) f } := by
   unfold stepTrivialMove at hs
   split at hs
@@ -149,7 +150,10 @@ theorem move_cases {s s' : State} {num lvl : Nat} (hs : stepTrivialMove s num lv
       · intro h0
         rcases hok.2 with h | h
         · exact absurd h h0
-        · exact h
+        · intro g hg hlt e
+          have := h g hg
+          rw [hlt, Bool.true_and] at this
+          simp [e] at this
     · cases hs
   · cases hs
 
@@ -190,7 +194,7 @@ theorem move_inv' {s s' : State} {num lvl : Nat} (h : InvP s)
           · rw [e] at hne'; exact absurd hfm.2 hne'
           · exact newerF_of_before (h.files i g hg') hfo hlt
           · intro x hx y hy e
-            exact absurd e (no_common_key_of_after (h.files i g hg') hfo hlt (hpos hz g hgo) hx hy)
+            exact absurd e (no_common_key_of_after (h.files i g hg') hfo hlt (hpos hz g hgo hlt) hx hy)
       · exact h.order i lvl g f hg' hfm.1 (Or.inl (by omega))
     · intro i g hg hil
       obtain ⟨hg, _⟩ := (hmemR i g).mp hg
